@@ -13,7 +13,7 @@ SPEC = dict(
     rule='systematic grid (fan kind hwmon/file/cmd x PWM readable x RPM sensor x configured pwmMap x configured minPwm+maxPwm '
          'x stored state none/data/map/both; each: start, stop, start [, reset|init, start]) plus seeded random fleets of 1..3 fans '
          'sharing one bbolt file with random device responses (identity, quantiser, floor, three levels), random stored state and '
-         'random start/stop/reset/init sequences ending in a restart. Plus CLI-driven histories (file fans): fan2go.yaml in one directory, working directory in another, dbPath written as a RELATIVE or an absolute path; `fan init` and `fan reset` are the REAL cobra commands of cmd/fan (their persistence passes through an identity wrapper so its calls are logged), a start does what the daemon does (file loaded through viper, fans.NewFan from the loaded entry, persistence.NewPersistence(loaded dbPath), Run). Plus concurrent scenarios: K = 2..6 already analysed fans (RPM data + PWM map stored, hwmon/file mixed) whose real Run() are launched together on ONE bbolt file, half of them while a second user of the file (bolt.Open on the same path, 50..300 ms at a time) holds it during start-up; expectation per fan = C15_reuse (no Sweep, no MeasureRpm, no error), compared through the same case shape (one Start per fan). Each start = the real DefaultFanController.Run on real '
+         'random start/stop/reset/init sequences ending in a restart. About half of the hwmon fans with an RPM input are bound the way the daemon binds them: a chip directory in a sysfs-like tree (gosensors stand-in, VERIF_HWMON_ROOT), hwmon.GetChips + UpdateFanConfigFromHwMonControllers(platform, index) at EVERY start, and between two starts of a history the chip directory is renumbered (hwmonN -> hwmonN+1) and another chip appears before it in the enumeration. Plus CLI-driven histories (file fans): fan2go.yaml in one directory, working directory in another, dbPath written as a RELATIVE or an absolute path; `fan init` and `fan reset` are the REAL cobra commands of cmd/fan (their persistence passes through an identity wrapper so its calls are logged), a start does what the daemon does (file loaded through viper, fans.NewFan from the loaded entry, persistence.NewPersistence(loaded dbPath), Run). Plus concurrent scenarios: K = 2..6 already analysed fans (RPM data + PWM map stored, hwmon/file mixed) whose real Run() are launched together on ONE bbolt file, half of them while a second user of the file (bolt.Open on the same path, 50..300 ms at a time) holds it during start-up; expectation per fan = C15_reuse (no Sweep, no MeasureRpm, no error), compared through the same case shape (one Start per fan). Each start = the real DefaultFanController.Run on real '
          'HwMonFan/FileFan/CmdFan objects until the first curve evaluation; observed: every PWM write (sweep = 256 consecutive writes '
          '255..0), every RPM read before the first regulation cycle (= RPM-curve measurement; the RPM monitor is parked), every '
          'persistence call, the controller\'s final pwmMap and the stored entries after each command. '
